@@ -139,11 +139,14 @@ Definition arrive (k : skind) (refs : list ustr) (t : table) : result (list rawr
   if negb (has_cols (t_cols t) refs) then Err EValue else
   match k with
   | SCsv =>
-      (* dtype=str, na_filter=False: every cell is text, NULL cannot be told from the empty string *)
+      (* dtype=str, na_filter=False: every cell is text, NULL cannot be told from the empty string.
+         usecols=[] (a rule without any reference) gives a frame without rows *)
+      match refs with [] => Ok [] | _ =>
       Ok (map (fun r => project refs (zip_row (t_cols t)
               (map (fun v => match v with VNull => CStr [] | VStr s => CStr s | VInt z => CStr (dec_of_Z z)
                                       | VFloatI z => CStr (dec_of_Z z ++ u ".0") | VBool true => CStr (u "True") | VBool false => CStr (u "False") end) r)))
               (t_rows t))
+      end
   | SSqlTable =>
       (* SELECT refs FROM t WHERE every ref IS NOT NULL; then column coercion on what remains *)
       let idx := map (fun c => mem c refs) (t_cols t) in
